@@ -136,6 +136,7 @@ func c15(c *Ctx) {
 	ruleNilMapField(c, "C15.P8", p.live())
 	ruleTypedNil(c, "C15.P9", p.live())
 	ruleNoDeleteFromTotalMap(c, "C15.P10")
+	ruleRangeShrink(c, "C15.P12", "the whole module (stored records and configuration are filtered in place at start-up)")
 }
 
 func c15Excepted(c *Ctx, rule, key string, pos string, fn *FuncInfo) bool {
